@@ -247,6 +247,61 @@ pub fn nested_variety(f: &F) -> Vec<R> {
     out
 }
 
+/// Names that put one character of every identifier class (upper / lower / title-case / modifier
+/// / other letter incl. right-to-left and CJK, decimal / letter / other number from several
+/// scripts, '_', '-', and the supplementary-plane characters the formats admit) at the first, a
+/// middle and the last position of a name. ('_' is never first: it is the placeholder prefix;
+/// '-' is only inner.)
+pub fn class_names() -> Vec<String> {
+    let mut v = vec![];
+    for c in ['Z', 'é', 'ß', 'ǅ', 'ʰ', 'א', '甲', 'ñ', 'İ', 'ı', '٣', '３', '৭', 'Ⅷ', '²', '½', '😀', '\u{e0101}', '\u{f0000}', '\u{10ffff}', '\u{1f300}'] {
+        v.push(format!("{c}"));
+        v.push(format!("{c}b"));
+        v.push(format!("a{c}"));
+        v.push(format!("a{c}b"));
+        v.push(format!("{c}{c}"));
+    }
+    for c in ['_', '-'] {
+        v.push(format!("a{c}b"));
+        if c == '_' {
+            v.push(format!("a{c}"));
+            v.push(format!("a{c}{c}b"));
+        }
+    }
+    v
+}
+
+/// every class name as a word (and as a query variable) alone and in the positions where a name
+/// meets a bracket, a separator or a copula
+pub fn name_class_terms() -> Vec<R> {
+    let a = R::word("a");
+    let mut out = vec![];
+    for n in class_names() {
+        for tag in [Tag::Word, Tag::QVar] {
+            let x = R::atom(tag, &n);
+            out.push(x.clone());
+            out.push(R::pair(Tag::Inh, x.clone(), a.clone()));
+            out.push(R::pair(Tag::Inh, a.clone(), x.clone()));
+            out.push(R::pair(Tag::Sim, x.clone(), x.clone()));
+            out.push(R::node(Tag::SetExt, vec![x.clone()]));
+            out.push(R::node(Tag::Product, vec![a.clone(), x.clone(), a.clone()]));
+            out.push(R::image(Tag::ImageInt, 1, vec![x.clone()]));
+        }
+    }
+    out
+}
+
+pub fn name_class_sentences() -> Vec<V> {
+    let mut out = vec![];
+    for n in class_names() {
+        let x = R::word(&n);
+        out.push(V { term: x.clone(), punct: Some(P::Judgement), stamp: St::Eternal, truth: vec![], budget: None });
+        out.push(V { term: x.clone(), punct: Some(P::Question), stamp: St::Present, truth: vec![], budget: Some(vec![]) });
+        out.push(V { term: R::atom(Tag::Operator, &n), punct: Some(P::Goal), stamp: St::Fixed(5), truth: vec![1.0, 0.9], budget: Some(vec![0.5, 0.75, 0.4]) });
+    }
+    out
+}
+
 /// one compound / statement of constructor `tag` over (x, y)
 pub fn mk2(tag: Tag, x: &R, y: &R) -> R {
     match tag.shape() {
@@ -362,6 +417,7 @@ pub fn u_term(f: &F, tier: Tier) -> Vec<R> {
     }
     out.extend(numeric_terms());
     out.extend(reducible(f));
+    out.extend(name_class_terms());
     out
 }
 
@@ -454,6 +510,7 @@ pub fn u_sent(f: &F) -> Vec<V> {
         }
     }
     out.extend(numeric_family());
+    out.extend(name_class_sentences());
     out
 }
 
